@@ -229,8 +229,10 @@ def run_params(p, rep, record=True):
 
 def _shard(shard, seed, tier, n_cases):
     rep = Reporter(PID, tier, RULE)
-    strat = sources.gen_params(max_hosts=60 if tier == "thorough" else 12,
-                               max_services=10 if tier == "thorough" else 5)
+    strat = engine.weighted([
+        (6, sources.gen_params(max_hosts=60 if tier == "thorough" else 12, max_services=14 if tier == "thorough" else 12)),
+        (1, sources.gen_params_many_features()),
+        (1, sources.gen_params_large())])
 
     @hypothesis.seed(seed)
     @settings(max_examples=n_cases, deadline=None, database=None, phases=[Phase.generate],
